@@ -1,9 +1,105 @@
-(** Property C19 (statements only; proofs in Geom/*Proofs.v) -- placeholder while the proofs are written. *)
-From Coq Require Import List ZArith Bool.
-From CGV Require Import Base.PyBase Geom.Num Geom.Scale.
+(** Property C19 — 2D layout gives every node a finite position at the requested scale.
+    ONLY statements, each closed by [exact]; proofs in Geom/ScaleProofs.v, ScaleProofsR.v, RotateProofs.v.
+    The rescale expressions ([gen_avg_final], [gen_scale_factor], multiplication of every entry) are
+    GENERATED from graph_layout.py on every run (Gen/GeomGen.v).
+
+    Claimed as PARTIAL:
+    proved      the rescale step (one position per node; bonded nodes stay distinct; squared lengths scale by
+                factor^2, over Q; mean bond length = default_bond, over R) and rotate_subgraph (bond lengths
+                preserved under the component contract, for any isometry fixing the anchor); label independence
+                of the update loop.
+    NOT proved  (oracle hypotheses, checked on every layout of the run by tools/props/c19.py): Kamada-Kawai /
+                Fruchterman-Reingold return finite positions in which bonded nodes do not coincide (so the
+                pre-scale mean is non-zero); numpy's norm is within one ulp of sqrt(dx*dx+dy*dy); the numpy
+                rotation is an isometry up to rounding; finiteness of IEEE results.
+    Axioms: ONLY [C19_rescale_mean*] and [C19_mean_nonzero] (square roots over the standard-library reals). *)
+From Coq Require Import List ZArith Bool QArith Reals.
+From CGV Require Import Base.PyBase Geom.Num Gen.GeomGen Geom.IndexMap Geom.Scale Geom.Rotate
+     Geom.ScaleProofs Geom.ScaleProofsR Geom.RotateProofs.
 Import ListNotations.
 
-Theorem C19_one_position_per_node : forall {M} (o : numops M) db lens pos,
+(** exactly the keys of the pre-scale dict, in the same order: one position per node *)
+Theorem C19_one_position_per_node : forall {M} (o : numops M) db lens (pos : list (Z * @vec2 M)),
   map fst (rescale_with o db lens pos) = map fst pos.
-Proof. intros. unfold rescale_with. rewrite map_map. reflexivity. Qed.
+Proof. exact @one_position_per_node. Qed.
+
+(** label independence of the update loop *)
+Theorem C19_rescale_relabel : forall {M} (o : numops M) (f : Z -> Z) db lens (pos : list (Z * @vec2 M)),
+  rescale_with o db lens (map (fun kv => (f (fst kv), snd kv)) pos)
+  = map (fun kv => (f (fst kv), snd kv)) (rescale_with o db lens pos).
+Proof. exact @rescale_relabel. Qed.
+Theorem C19_lens_relabel : forall {M} (o : numops M) sqrt (f : Z -> Z) (posf posf' : Z -> @vec2 M) edges,
+  (forall k, posf' (f k) = posf k) ->
+  lens_of o sqrt posf' (map (fun e => (f (fst e), f (snd e))) edges) = lens_of o sqrt posf edges.
+Proof. exact @lens_relabel. Qed.
+
+(** over Q, axiom-free: squared bond lengths scale by factor^2; distinct stays distinct *)
+Theorem C19_rescale_sqlen : forall (p q : @vec2 Q) c,
+  (sqlen (v2scale numQ p c) (v2scale numQ q c) == c * c * sqlen p q)%Q.
+Proof. exact rescale_sqlen. Qed.
+Theorem C19_rescale_preserves_distinct : forall db lens (posf : Z -> @vec2 Q) u v,
+  ~ (db == 0)%Q -> ~ (avg_of numQ lens == 0)%Q -> ~ v2eq (posf u) (posf v) ->
+  ~ v2eq (v2scale numQ (posf u) (factor_of numQ db lens)) (v2scale numQ (posf v) (factor_of numQ db lens)).
+Proof. exact rescale_preserves_distinct. Qed.
+
+(** over R: the mean bond length after rescaling is the requested one *)
+Theorem C19_rescale_mean : forall default_bond edges (posf : Z -> @vec2 R),
+  (0 <= default_bond)%R -> mean_bond numR sqrt posf edges <> 0%R ->
+  mean_bond numR sqrt (fun k => v2scale numR (posf k) (factor_of numR default_bond (lens_of numR sqrt posf edges))) edges
+  = default_bond.
+Proof. exact rescale_mean_pos. Qed.
+Theorem C19_rescale_mean_dict : forall default_bond edges (pos : list (Z * @vec2 R)) d,
+  let posf := fun k => plookup d k pos in
+  let c := factor_of numR default_bond (lens_of numR sqrt posf edges) in
+  (0 <= default_bond)%R -> mean_bond numR sqrt posf edges <> 0%R ->
+  mean_bond numR sqrt (fun k => plookup (v2scale numR d c) k (rescale numR sqrt default_bond edges posf pos)) edges
+  = default_bond.
+Proof. exact rescale_mean_dict. Qed.
+(** the hypothesis "pre-scale mean non-zero" follows from one bonded pair that does not coincide *)
+Theorem C19_mean_nonzero : forall (posf : Z -> @vec2 R) edges e,
+  In e edges -> bond_len numR sqrt posf e <> 0%R -> mean_bond numR sqrt posf edges <> 0%R.
+Proof. exact mean_nonzero. Qed.
+
+(** rotate_subgraph: every bond length is preserved *)
+Theorem C19_rotate_preserves_bonds : forall {P D : Type} (dist : P -> P -> D) (rot : P -> P -> P),
+  (forall o p q, dist (rot o p) (rot o q) = dist p q) -> (forall o, rot o o = o) ->
+  forall edges anchor target comps (points : Z -> P) c points',
+    rotate_subgraph rot edges anchor target comps points = Ok (c, points') ->
+    comp_contract edges anchor target c = true ->
+    forall e, In e edges -> dist (points' (fst e)) (points' (snd e)) = dist (points (fst e)) (points (snd e)).
+Proof. exact @rotate_preserves_bonds. Qed.
+Theorem C19_rotate_moves_only_component : forall {P : Type} (rot : P -> P -> P) edges anchor target comps
+    (points : Z -> P) c points' k,
+  rotate_subgraph rot edges anchor target comps points = Ok (c, points') -> zmem k c = false -> points' k = points k.
+Proof. exact @rotate_moves_only_component. Qed.
+
+(** ---------- non-vacuity *)
+Example C19_nonvacuous_mean :
+  let posf := fun k : Z => if Z.eqb k 0 then (0, 0)%R else (3, 4)%R in
+  mean_bond numR sqrt posf [(0, 1)%Z] <> 0%R /\ (0 <= 2)%R.
+Proof.
+  cbn zeta. split; [|apply Rlt_le, Rlt_0_2].
+  apply (mean_nonzero _ _ (0, 1)%Z); [left; reflexivity|]. unfold bond_len, norm2. cbn.
+  apply Rgt_not_eq. apply sqrt_lt_R0.
+  replace ((0 - 3) * (0 - 3) + (0 - 4) * (0 - 4))%R with 25%R by ring. apply (IZR_lt 0 25). reflexivity.
+Qed.
+Example C19_nonvacuous_distinct :
+  let lens := [2; 4]%Q in
+  ~ (3 == 0)%Q /\ ~ (avg_of numQ lens == 0)%Q /\ ~ v2eq (0, 0)%Q (1, 0)%Q /\ (factor_of numQ 3 lens == 1)%Q.
+Proof. cbn zeta. repeat split; vm_compute; try discriminate. intros [H _]. discriminate. Qed.
+Example C19_nonvacuous_rotate :
+  let edges := [(0, 1); (1, 2); (2, 3)]%Z in
+  exists c pts', rotate_subgraph (fun o p : Z => 2 * o - p)%Z edges 1 2 [[0; 1]; [2; 3]]%Z (fun k => 10 * k)%Z = Ok (c, pts')
+                 /\ comp_contract edges 1 2 c = true /\ pts' 3%Z = (-10)%Z.
+Proof. cbn. eexists. eexists. repeat split. Qed.
+
 Print Assumptions C19_one_position_per_node.
+Print Assumptions C19_rescale_relabel.
+Print Assumptions C19_lens_relabel.
+Print Assumptions C19_rescale_sqlen.
+Print Assumptions C19_rescale_preserves_distinct.
+Print Assumptions C19_rescale_mean.
+Print Assumptions C19_rescale_mean_dict.
+Print Assumptions C19_mean_nonzero.
+Print Assumptions C19_rotate_preserves_bonds.
+Print Assumptions C19_rotate_moves_only_component.
